@@ -63,6 +63,62 @@ fn body_facts<'tcx>(tcx: TyCtxt<'tcx>, ldid: LocalDefId) -> Option<J> {
     }
     let body = &*steal.borrow();
     let env = ty::TypingEnv::post_analysis(tcx, did);
+    // single-assignment constants: `_n = const X` (used to show literal operands of calls)
+    let mut const_of: std::collections::HashMap<mir::Local, String> = Default::default();
+    let mut assign_count: std::collections::HashMap<mir::Local, usize> = Default::default();
+    for (_bb, data) in body.basic_blocks.iter_enumerated() {
+        for st in &data.statements {
+            if let StatementKind::Assign(b) = &st.kind {
+                if let Some(l) = b.0.as_local() {
+                    *assign_count.entry(l).or_insert(0) += 1;
+                    if let Rvalue::Use(Operand::Constant(c), ..) = &b.1 {
+                        const_of.insert(l, format!("{}", c.const_));
+                    }
+                }
+            }
+        }
+    }
+    // propagate through plain copies and reborrows `_a = &(*_b)` / `_a = copy _b`
+    for _round in 0..3 {
+        for (_bb, data) in body.basic_blocks.iter_enumerated() {
+            for st in &data.statements {
+                if let StatementKind::Assign(b) = &st.kind {
+                    let Some(l) = b.0.as_local() else { continue };
+                    let src = match &b.1 {
+                        Rvalue::Use(Operand::Copy(p) | Operand::Move(p), ..) => p.as_local(),
+                        Rvalue::Ref(_, _, p) => {
+                            if p.projection.len() == 1 && matches!(p.projection[0], mir::ProjectionElem::Deref) {
+                                Some(p.local)
+                            } else {
+                                None
+                            }
+                        }
+                        _ => None,
+                    };
+                    if let Some(srcl) = src {
+                        if assign_count.get(&srcl) == Some(&1) {
+                            if let Some(v) = const_of.get(&srcl).cloned() {
+                                const_of.insert(l, v);
+                            }
+                        }
+                    }
+                }
+            }
+        }
+    }
+    let const_operand = |op: &Operand<'tcx>| -> J {
+        match op {
+            Operand::Constant(c) => J::s(format!("{}", c.const_)),
+            Operand::Copy(p) | Operand::Move(p) => match p.as_local() {
+                Some(l) if assign_count.get(&l) == Some(&1) => match const_of.get(&l) {
+                    Some(s) => J::s(s.clone()),
+                    None => J::Null,
+                },
+                _ => J::Null,
+            },
+            _ => J::Null,
+        }
+    };
     let mut calls = vec![];
     let mut fnrefs = vec![];
     let mut closures = vec![];
@@ -133,6 +189,7 @@ fn body_facts<'tcx>(tcx: TyCtxt<'tcx>, ldid: LocalDefId) -> Option<J> {
                         "arg_tys",
                         J::Arr(args.iter().map(|a| J::s(tyj::ty_str(a.node.ty(body, tcx)))).collect()),
                     ),
+                    ("const_args", J::Arr(args.iter().map(|a| const_operand(&a.node)).collect())),
                 ]);
                 if let ty::TyKind::FnDef(d, a) = fty.kind() {
                     let d: rustc_hir::def_id::DefId = (*d).into();
